@@ -174,6 +174,11 @@ func buildConstantStruct(c ConstantMap) (*ConstantStruct, error) {
 			return nil, fmt.Errorf(
 				"%v is not a string: all keys must be strings", pair.Key)
 		}
+		if _, ok := fields[string(s)]; ok {
+			// Only one of the values would survive, and the other would
+			// never be checked against the type of the field.
+			return nil, fmt.Errorf("field %q is given more than once", string(s))
+		}
 		fields[string(s)] = pair.Value
 	}
 	return &ConstantStruct{Fields: fields}, nil
